@@ -130,7 +130,10 @@ func (ce *convergenceElem) activate() (successful, retry bool) {
 		}).Info("Failed to start CLA")
 
 		if claRetry {
-			atomic.AddInt32(&ce.ttl, -1)
+			// A negative ttl indicates an active CLA. Thus, the ttl of a permanent CLA must not drop below zero.
+			if atomic.LoadInt32(&ce.ttl) > 0 {
+				atomic.AddInt32(&ce.ttl, -1)
+			}
 		} else {
 			atomic.StoreInt32(&ce.ttl, 0)
 		}
